@@ -1086,6 +1086,25 @@ pub fn gen_devspec(rng: &mut Rng, bias: Bias, max_vols: usize) -> DevSpec {
         lba = v.lba + v.total_blocks() + *rng.pick(&[0u32, 0, 1, 17, 100]);
         vols.push(v);
     }
-    let foreign = if rng.chance(1, 3) { slots.get(nv).copied() } else { None };
-    DevSpec { vols, stale_fill: rng.chance(3, 4), extra_blocks: *rng.pick(&[0u32, 0, 5, 100]), foreign_slot: foreign }
+    let mut foreign = if rng.chance(1, 3) { slots.get(nv).copied() } else { None };
+    let mut extra_blocks = *rng.pick(&[0u32, 0, 5, 100]);
+    // sometimes the whole layout sits at the top of the 32-bit block range (last block 0xFFFF_FFFE or a little
+    // below) or straddles 2^31: block arithmetic must not wrap or go through signed values
+    if rng.chance(1, 10) {
+        let end = vols.iter().map(|v: &VolSpec| v.lba + v.total_blocks()).max().unwrap_or(1);
+        let first = vols.iter().map(|v| v.lba).min().unwrap_or(1);
+        let top = match rng.below(4) {
+            0 => u32::MAX,
+            1 => u32::MAX - rng.range(1, 3000) as u32,
+            2 => 0x8000_0000 + (end - first) / 2,
+            _ => 0x8000_0000 + rng.range(0, 0x7000_0000) as u32,
+        };
+        let delta = top - end;
+        for v in vols.iter_mut() {
+            v.lba += delta;
+        }
+        foreign = None;
+        extra_blocks = extra_blocks.min(u32::MAX - top);
+    }
+    DevSpec { vols, stale_fill: rng.chance(3, 4), extra_blocks, foreign_slot: foreign }
 }
